@@ -21,8 +21,13 @@ from mc.run import Hang
 ID = "C48"
 LEVEL = "exploration"
 WATCHDOG_S = 30.0
-NMAX = {"quick": 3, "thorough": 5}
-PMAX = {"quick": 3, "thorough": 4}
+NMAX = {"quick": 3, "thorough": 4}
+PMAX = {"quick": 3, "thorough": 5}  # every variant runs on every layout with <= PMAX partitions
+PWIDE = {"quick": 4, "thorough": 5}  # the cross-partition variants (CROSS) additionally run on layouts with up to PWIDE partitions
+# variants whose result is assembled ACROSS partitions (tree reductions, shuffles, carries, boundaries)
+CROSS = frozenset(
+    "distinct frequencies topk fold reduction foldby groupby accumulate take repartition sum max min any all count mean var std".split()
+)
 ASSUMPTIONS = [
     "sync scheduler; functions are module-level pure functions; binary operators given to fold/reduction/foldby are associative and "
     "commutative with a neutral `initial` (the only case in which the documented per-partition semantics coincide with functools.reduce)",
@@ -36,13 +41,14 @@ ASSUMPTIONS = [
 
 
 def RULE(tier):
-    n, p = NMAX[tier], PMAX[tier]
+    n, p, w = NMAX[tier], PMAX[tier], PWIDE[tier]
     return (
-        f"every sequence over {{0,1,2}} of length 0..{n} x EVERY partitioning into <= {p} partitions incl. empty ones (from_delayed) + "
-        f"from_sequence(npartitions=2 | partition_size=1,2) x {len(variants(tier))} operation variants: map (unary, extra arg, kwarg, second bag), "
+        f"every sequence over {{0,1,2}} of length 0..{n} x EVERY partitioning into <= {p} partitions incl. empty ones (from_delayed; <= {w} "
+        f"partitions for the cross-partition operations {sorted(CROSS)}) + "
+        f"from_sequence(npartitions=2 | partition_size=1,2) x {len(variants(tier))} operation variants: map (unary, str method, extra arg, kwarg, second bag), "
         "starmap, filter, remove, map_partitions (1-2 bags, extra arg), pluck (index, key, default, list), flatten, distinct (key fn / str key), "
         "frequencies (sort), topk (k, key), fold (add/max/set-union, initial), reduction, foldby (initial, combine_initial), groupby "
-        "(tasks with max_branch None|2, disk with npartitions None|1|2 and blocksize 2|64; 2 groupers), join (list / delayed / 1-partition bag), product, "
+        "(tasks with max_branch None|2, disk with npartitions None|1|2 and blocksize 2|64; int and str keys), join (list / delayed / 1-partition bag), product, "
         "accumulate (initial), take (k, npartitions 1|2|-1), repartition (npartitions 1..4, partition_size), zip, concat, "
         "sum/max/min/any/all/count/mean/var/std (ddof) -- each x split_every {None,2} where it applies.  Oracle = plain Python on the "
         "concatenated sequence. non-trivial = >= 2 partitions."
@@ -76,6 +82,10 @@ def mod2(x):
 
 def ident(x):
     return x
+
+
+def letter(x):
+    return "abc"[x]
 
 
 def neg(x):
@@ -135,7 +145,7 @@ def tagged(seq):
 
 
 # ---------------------------------------------------------------------------------------------- enumeration
-OTHERS = ((), (1,), (0, 2, 2))  # fixed right-hand sequences for join
+OTHERS = ((), (0, 2, 2, 1))  # fixed right-hand sequences for join
 LAY2 = (("d", (2,)), ("d", (1, 1)), ("d", (0, 2)), ("d", (2, 0, 0)))  # layouts of the fixed second bag [20, 21]
 
 
@@ -143,7 +153,7 @@ LAY2 = (("d", (2,)), ("d", (1, 1)), ("d", (0, 2)), ("d", (2, 0, 0)))  # layouts 
 def variants(tier):
     v = []
     ses = (None, 2)
-    v += [("map", "inc"), ("map", "const"), ("map", "kw"), ("map", "bag2"), ("map", "bag2kw")]
+    v += [("map", "inc"), ("map", "str"), ("map", "const"), ("map", "kw"), ("map", "bag2"), ("map", "bag2kw")]
     v += [("starmap", "add"), ("starmap", "kw")]
     v += [("filter", "even"), ("filter", "pos"), ("remove", "even")]
     v += [("map_partitions", "x3"), ("map_partitions", "arg"), ("map_partitions", "bag2")]
@@ -151,18 +161,18 @@ def variants(tier):
     v += [("flatten",)]
     v += [("distinct", None), ("distinct", "mod2"), ("distinct", "strkey")]
     v += [("frequencies", se, sort) for se in ses for sort in (False, True)]
-    v += [("topk", k, key, se) for k in (1, 2, 4) for key in (None, "neg") for se in ses]
+    v += [("topk", k, key, se) for k in ((1, 3) if tier == "quick" else (0, 1, 2, 3, 5)) for key in (None, "neg") for se in ses]
     v += [("fold", f, init, se) for f in ("add", "max", "set") for init in (False, True) for se in ses if not (f == "set" and not init)]
     v += [("reduction", f, se) for f in ("sum", "len", "min") for se in ses]
     v += [("foldby", init, cinit, se) for init in (False, True) for cinit in (False, True) for se in ses]
-    v += [("groupby", g, "tasks", mb) for g in ("mod2", "ident") for mb in (None, 2)]
+    v += [("groupby", g, "tasks", mb) for g in ("mod2", "letter") for mb in (None, 2)]
     # disk shuffle: blocksize (elements per spill block) 2 forces several blocks per partition; the default 2**20 is not enumerated
     # because toolz.partition_all(2**20, ...) costs ~60 ms of CPU per partition regardless of the data
-    v += [("groupby", g, "disk", np_, bs) for g in ("mod2", "ident") for np_, bs in ((None, 2), (1, 2), (2, 2), (None, 64))]
+    v += [("groupby", g, "disk", np_, bs) for g in ("mod2", "letter") for np_, bs in ((None, 2), (1, 2), (2, 2), (None, 64))]
     v += [("join", kind, o, on) for kind in ("list", "delayed", "bag1") for o in range(len(OTHERS)) for on in ("ident", "mod2")]
     v += [("product", l2) for l2 in range(len(LAY2))] + [("product", "self")]
     v += [("accumulate", False), ("accumulate", True)]
-    v += [("take", k, m) for k in (0, 1, 2, 4) for m in (1, 2, -1)]
+    v += [("take", k, m) for k in ((0, 1, 3) if tier == "quick" else (0, 1, 2, 3, 5)) for m in (1, 2, -1)]
     v += [("repartition", "n", m) for m in (1, 2, 3, 4)] + [("repartition", "size", s) for s in (64, 200, "1kB")]
     v += [("zip", 2), ("zip", 3)]
     v += [("concat", l2) for l2 in range(len(LAY2))] + [("concat", "self")]
@@ -223,14 +233,14 @@ def cases_of(shard, tier):
     n, a, vb, b, sb = shard
     pmax = PMAX[tier]
     vs = variants(tier)
-    lays = list(layouts(n, pmax))
+    lays = list(layouts(n, PWIDE[tier]))
     for si, seq in enumerate(itertools.product((0, 1, 2), repeat=n)):
         if si % sb != b:
             continue
         for lay in lays:
             np_ = lay_nparts(lay, n)
             for vi, var in enumerate(vs):
-                if vi % vb != a:
+                if vi % vb != a or (np_ > pmax and var[0] not in CROSS):
                     continue
                 p = uses_split_every(var)
                 if p is not None and var[p] == 2 and np_ < 3:
@@ -292,6 +302,8 @@ def plan(var, seq, lay):
         k = var[1]
         if k == "inc":
             return "multiset", lambda: comp(B().map(inc)), lambda: [x + 1 for x in seq]
+        if k == "str":
+            return "multiset", lambda: comp(B([letter(x) for x in seq]).map(str.upper)), lambda: ["ABC"[x] for x in seq]
         if k == "const":
             return "multiset", lambda: comp(B().map(add, 10)), lambda: [x + 10 for x in seq]
         if k == "kw":
@@ -413,7 +425,7 @@ def plan(var, seq, lay):
 
         return "multiset", lambda: comp(B().foldby(mod2, add, combine=add, split_every=se, **kw)), ref_foldby
     if name == "groupby":
-        g = mod2 if var[1] == "mod2" else ident
+        g = mod2 if var[1] == "mod2" else letter
         if var[2] == "tasks":
             mk = lambda: B().groupby(g, shuffle="tasks", max_branch=var[3])  # noqa: E731
         else:
